@@ -1,6 +1,6 @@
 """C19 - sample statistics and burn-in / thinning are exact functions of the stored chain.
 
-Two engines:
+Three engines:
 
 E1 (history explorer, no state merging) - cells 'hist'/'joint': from a start Samples object every sequence
 of length <= 3 over the alphabet { burnthin(b, t) : b in 0..n, t in 1..n+1 (n = current number of samples),
@@ -8,6 +8,23 @@ of length <= 3 over the alphabet { burnthin(b, t) : b in 0..n, t in 1..n+1 (n = 
 operation returns a new object and - as checked after every step - leaves its source untouched).  A plain
 reference model (python list of per-sample numpy arrays + two flags) is advanced alongside and compared with
 the implementation after *every* step.  Each root-to-node path is one reference trace.
+On the start chain (first step of every history) the burn-in/thinning alphabet is the complete boundary product
+b in 0..Ns+1, t in 1..Ns+2, each pair with python-int and numpy-int arguments, plus the one-argument form
+burnthin(b); oracle: exactly stored[b::t] whenever b < Ns (a raise there is a violation), refusal or the empty
+set only for b >= Ns.  copy(S) / deepcopy(S) are judged at the nodes of the first two levels (never extended).
+Identity oracle at every transition: where the reference produces a new state the result must be a distinct
+object ("returned as a new Samples object", every member of JointSamples.burnthin included); conversions that are
+documented to hand back the object itself are exempt exactly where the reference model is the identity.
+These histories are kept PURE (nothing is ever assigned on a live object), so state carried along by shallow
+copies (caches) stays visible.
+
+E2 (independence / re-assignment, fresh objects) - cells 'indep'/'indep-joint': for every history of length <= 2
+over the same alphabet a fresh start object is taken through the history; source A and result B of the last
+operation are then probed: re-binding .samples / .geometry / the representation flags on B leaves A's
+fingerprint unchanged and vice versa (dictionary entries likewise for JointSamples).  Then use -> assign -> use
+on B: after .funvals / .mean() have been used and B.samples has been re-assigned, mean and .funvals are those
+of the chain stored now.  Whether B's array shares memory with A (numpy view) is *observed* (in-place edit,
+counted 'buffer-shared:<op>') but not judged: the statement does not promise independent storage.
 
 E3 (configuration product) - cells 'stats'/'ess': mean / median / variance / std / credible intervals for
 every configuration x credibility level against per-coordinate computations on the raw array; ESS / R-hat
@@ -24,20 +41,40 @@ PROPERTY = "C19"
 RULE = ("hist/joint cells = geometry x start representation x Ns; inside a cell ALL operation sequences of length <= 3 "
         "over {burnthin(b,t): b=0..n, t=1..n+1 with n the current chain length; funvals; vector; parameters} are "
         "executed on the real Samples objects and compared step by step with a list-of-arrays reference (a refused "
-        "operation ends its branch); stats cells = configuration x Ns, every statistic x credibility level compared "
+        "operation ends its branch); the FIRST step of every history ranges over the complete boundary product "
+        "b=0..Ns+1, t=1..Ns+2 x {python int, numpy int64} plus the one-argument form burnthin(b); copy/deepcopy are "
+        "judged at the nodes of the first two levels (not extended); after every transition that yields a sample set the "
+        "identity of the result is judged (new object wherever the reference state is new); histories are pure (nothing "
+        "assigned on live objects).  indep cells = geometry x start representation x Ns: every history of length <= 2 "
+        "on a FRESH start object, then attribute-level independence of the last operation's result and source in both "
+        "directions (re-bind samples / geometry / flags, look at the other object, undo) and use -> re-assign samples -> "
+        "use on the result (mean, funvals of the chain stored now); indep-joint likewise for JointSamples members and "
+        "dictionary entries; stats cells = configuration x Ns, every statistic x credibility level compared "
         "per coordinate; ess cells = dimension x Ns x variable naming x number of extra chains.  A cell is "
         "non-trivial when at least one operation returned a new object that was compared")
 BOUND = {
-    "quick": "histories of length <= 3, start chains Ns=1..5; 14 start configurations (default geometry dim 1..3 as "
+    "quick": "histories of length <= 3, start chains Ns=1..5, and of length 1 from Ns=6 (so the complete (b,t) boundary "
+             "product b=0..Ns+1 x t=1..Ns+2 is decided on fresh chains of every length 1..6); independence / re-assignment "
+             "cells: every history of length <= 2 from Ns=1..3 and of length 1 from Ns=4..6, each on a fresh start object, "
+             "JointSamples every burnthin history of length <= 2 from Ns=1..6; 14 start configurations (default geometry dim 1..3 as "
              "parameters and as function vectors, Continuous2D 2x3 par/fun, Image2D 2x3 C and F par/funvec/fun, "
              "StepExpansion 6 nodes/2 steps par/funvec) + JointSamples with 2 members; statistics: same configurations, "
              "Ns=1..7, credibility {0,50,68,95,99,100}; ESS/R-hat: dims {1,2,3,10,11,12,13}, Ns {25,40}, default and "
              "custom (unsorted) variable names, 1-2 extra chains",
-    "thorough": "same with start chains Ns=1..8 (length <= 3) plus all histories of length <= 4 from Ns=2..4, and 3 value "
+    "thorough": "same with start chains Ns=1..8 (length <= 3) plus all histories of length <= 4 from Ns=2..4, independence / "
+                "re-assignment cells with histories of length <= 2 from Ns=1..6, and 3 value "
                 "catalogues' worth of statistics inputs per cell",
 }
 ASSUMPTIONS = [
-    "burnthin with b >= Ns may raise (the library does) or return the empty slice; both accepted",
+    "burnthin with b >= Ns may raise (the library does) or return the empty slice; both accepted; for b < Ns a raise is a "
+    "violation whatever t is (the result is the non-empty slice stored[b::t])",
+    "independence is demanded at attribute level only (distinct object; re-binding samples/geometry/flags on one side does "
+    "not show on the other); sharing of the underlying numpy buffer (burnthin returns a view) and of the geometry object is "
+    "observed and counted, not judged; .funvals/.vector/.parameters may return the object itself exactly where the "
+    "docstrings say so (already in the requested representation)",
+    "any exception raised inside the library at a place the statement gives no licence to refuse (construction, attribute "
+    "access, statistics of a legal chain, burnthin with b < Ns) is reported as a violation '...|raises...'; exceptions "
+    "raised by the check's own code remain harness errors",
     "a conversion the geometry does not offer (Continuous2D has no vector form) may raise; the branch ends there",
     "variance/std: numpy's default (population, ddof=0) or the sample version (ddof=1) accepted if used consistently; "
     "credible bounds: any of numpy's percentile interpolation rules accepted, the default (linear) is what is observed",
@@ -199,11 +236,21 @@ def cells(tier, seed):
     for kind, start in HIST_CONFS:
         for Ns in range(1, nmax + 1):
             yield {"fam": "hist", "geom": kind, "start": start, "Ns": Ns, "depth": 3, "cat": k}
-        if tier != "quick":
+        if tier == "quick":
+            yield {"fam": "hist", "geom": kind, "start": start, "Ns": 6, "depth": 1, "cat": k}
+        else:
             for Ns in range(2, 5):
                 yield {"fam": "hist", "geom": kind, "start": start, "Ns": Ns, "depth": 4, "cat": k}
     for Ns in range(1, nmax + 1):
         yield {"fam": "joint", "Ns": Ns, "depth": 3, "cat": k}
+    if tier == "quick":
+        yield {"fam": "joint", "Ns": 6, "depth": 1, "cat": k}
+    for kind, start in HIST_CONFS:
+        for Ns in range(1, 7):
+            yield {"fam": "indep", "geom": kind, "start": start, "Ns": Ns, "depth": 2 if Ns <= (3 if tier == "quick" else 6) else 1,
+                   "cat": k}
+    for Ns in range(1, 7):
+        yield {"fam": "indep-joint", "Ns": Ns, "depth": 2, "cat": k}
     for kind, start in HIST_CONFS:
         for Ns in range(1, 8):
             yield {"fam": "stats", "geom": kind, "start": start, "Ns": Ns, "cat": k,
@@ -223,6 +270,75 @@ def _fp(S):
     return (a.shape, a.tobytes(), bool(S.is_par), bool(S.is_vec), id(S._geometry))
 
 
+def _bt_alphabet(n, first):
+    """Burn-in/thinning alphabet on a chain of n samples: entries (b, t | None, argument type, extend?)."""
+    if not first:
+        return [("burnthin", b, t, "int", True) for b in range(0, n + 1) for t in range(1, n + 2)]
+    out = [("burnthin", b, t, ty, ty == "int") for ty in ("int", "np") for b in range(0, n + 2) for t in range(1, n + 3)]
+    return out + [("burnthin", b, None, "int", False) for b in range(0, n + 2)]      # one-argument form
+
+
+def _call_burnthin(obj, op):
+    conv = int if op[3] == "int" else np.int64
+    if op[2] is None:
+        return obj.burnthin(conv(op[1]))
+    return obj.burnthin(conv(op[1]), conv(op[2]))
+
+
+def _toggle_flags(S):
+    """Re-bind the representation flags of S to another legal combination; returns the undo closure."""
+    par, vec = S.is_par, S.is_vec
+    if par:
+        S.is_par = False
+
+        def undo():
+            S.is_par = par
+    else:
+        S.is_vec = not vec
+
+        def undo():
+            S.is_vec = vec
+    return undo
+
+
+def _independence(res, A, B, alt_geom, label):
+    """Attribute-level independence of two distinct Samples objects A (source) and B (result), both directions.
+
+    Every re-binding is undone.  Returns None if independent, else a description of the coupling.  Also counts
+    whether an in-place edit of B's array shows in A (shared buffer; observed only)."""
+    for X, Y, who in ((B, A, "result->source"), (A, B, "source->result")):
+        fy = _fp(Y)
+        old = X.samples
+        X.samples = np.full(np.asarray(old).shape, 7.5)
+        hit = _fp(Y) != fy
+        X.samples = old
+        if hit:
+            return "re-binding .samples (%s)" % who
+        oldg = X.geometry
+        X.geometry = alt_geom
+        hit = _fp(Y) != fy
+        X.geometry = oldg
+        if hit:
+            return "re-binding .geometry (%s)" % who
+        undo = _toggle_flags(X)
+        hit = _fp(Y) != fy
+        undo()
+        if hit:
+            return "re-binding the representation flags (%s)" % who
+        res.evaluations += 3
+        if _fp(Y) != fy:
+            return "undoing the re-bindings (%s)" % who
+    arr = B.samples
+    if isinstance(arr, np.ndarray) and arr.size and arr.flags.writeable:
+        fa = _fp(A)
+        first = arr[..., 0].copy()
+        arr[..., 0] = first + 1.0
+        shared = _fp(A) != fa
+        arr[..., 0] = first
+        res.count(("buffer-shared:" if shared else "buffer-own:") + label)
+    return None
+
+
 def _same_geometry(a, b):
     if a is b:
         return True
@@ -237,6 +353,7 @@ class Explorer:
         self.res, self.cf, self.comp, self.facet = res, cf, comp, facet
         self._seen = set()
         self.stop = False
+        self.copy_depth = 2       # copy / deepcopy judged at the nodes reached by histories shorter than this
 
     def fail(self, op, what, msg, **detail):
         sig = "C19|%s|%s|%s" % (self.comp, op, what)
@@ -272,11 +389,14 @@ class Explorer:
             return False
         return True
 
-    def ops(self, n):
-        out = [("burnthin", b, t) for b in range(0, n + 1) for t in range(1, n + 2)]
-        return out + [("funvals",), ("vector",), ("parameters",)]
+    def ops(self, n, done):
+        out = _bt_alphabet(n, first=done == 0) + [("funvals",), ("vector",), ("parameters",)]
+        if done < self.copy_depth:
+            out += [("copy",), ("deepcopy",)]
+        return out
 
     def explore(self, S, ref, depth, hist, root):
+        import copy as _copy
         res = self.res
         res.state(ref.key())
         if depth == 0 or self.stop:
@@ -284,62 +404,77 @@ class Explorer:
         n = len(ref.items)
         children = []     # every operation is executed and judged first, then the children are expanded: the
         #                   shortest failing history is therefore the one reported
-        for op in self.ops(n):
+        for op in self.ops(n, len(hist)):
             if self.stop:
                 return
-            h = hist + [list(op)]
+            name = op[0]
+            h = hist + [[x for x in op if not isinstance(x, bool)]]
             g_before = S.geometry
             before = _fp(S)
             res.transitions += 1
             res.traces += 1
             refused = None
             try:
-                if op[0] == "burnthin":
-                    S2 = S.burnthin(op[1], op[2])
+                if name == "burnthin":
+                    S2 = _call_burnthin(S, op)
+                elif name == "copy":
+                    S2 = _copy.copy(S)
+                elif name == "deepcopy":
+                    S2 = _copy.deepcopy(S)
                 else:
-                    S2 = getattr(S, op[0])
+                    S2 = getattr(S, name)
             except Exception as e:  # noqa
                 refused = e
             # reference step
             ref_refuses = False
-            if op[0] == "burnthin":
-                ref2 = ref.burnthin(op[1], op[2])
+            if name == "burnthin":
+                ref2 = ref.burnthin(op[1], 1 if op[2] is None else op[2])
+            elif name in ("copy", "deepcopy"):
+                ref2 = Ref(ref.items, ref.is_par, ref.is_vec)        # same contents, new state
             else:
                 try:
-                    ref2 = getattr(ref, op[0])(self.cf)
+                    ref2 = getattr(ref, name)(self.cf)
                 except NotImplementedError:
                     ref_refuses, ref2 = True, ref
             # source untouched, whatever happened
             if _fp(S) != before:
-                self.fail(op[0], "source-altered", "%s changed its source object (history %s)" % (op[0], h), history=h)
+                self.fail(name, "source-altered", "%s changed its source object (history %s)" % (name, h), history=h)
                 self.stop = True
                 return
             if refused is not None:
                 res.refused += 1
-                res.count("refused:" + op[0])
-                allowed = ref_refuses or (op[0] == "burnthin" and len(ref2.items) == 0)
+                res.count("refused:" + name)
+                allowed = ref_refuses or (name == "burnthin" and len(ref2.items) == 0)
                 if not allowed:
-                    self.fail(op[0], "raises", "%s raised %r although the reference result is well defined (history %s)"
-                              % (op[0], refused, h), history=h)
+                    self.fail(name, "raises", "%s raised %r although the reference result is well defined (history %s)"
+                              % (name, refused, h), history=h)
                 continue
             if ref_refuses:
                 # the implementation produced something the geometry does not offer a reference for: not judged
                 res.count("unjudged-conversion")
                 continue
-            exact = op[0] == "burnthin"
+            exact = name in ("burnthin", "copy", "deepcopy")
             if not self.compare(op, S2, ref2, h, exact):
                 continue
             if not _same_geometry(S2.geometry, g_before):
-                self.fail(op[0], "geometry", "%s did not preserve the geometry (history %s)" % (op[0], h), history=h)
+                self.fail(name, "geometry", "%s did not preserve the geometry (history %s)" % (name, h), history=h)
                 continue
+            # identity / independence of the result
+            if S2 is S:
+                if ref2 is not ref:
+                    self.fail(name, "result-is-source", "%s returned its source object itself where a new sample set is "
+                              "promised (history %s): anything re-bound on the result later changes the source" % (name, h),
+                              history=h)
+                    continue
+                res.count("returns-self:" + name)
             if _fp(root[0]) != root[1]:
-                self.fail(op[0], "root-altered", "the start object changed during history %s" % (h,), history=h)
+                self.fail(name, "root-altered", "the start object changed during history %s" % (h,), history=h)
                 self.stop = True
                 return
-            res.outcomes.add("%s->%s" % (op[0], ref2.key()))
-            if res.sample is None and len(h) == 3 and op[0] == "burnthin" and len(ref2.items) >= 1:
+            res.outcomes.add("%s->%s" % (name, ref2.key()))
+            if res.sample is None and len(h) == 3 and name == "burnthin" and len(ref2.items) >= 1:
                 res.sample = {"history": h, "final_samples": np.asarray(S2.samples), "flags": [S2.is_par, S2.is_vec]}
-            if len(ref2.items) == 0:
+            if len(ref2.items) == 0 or name in ("copy", "deepcopy") or (name == "burnthin" and not op[4]):
                 continue
             children.append((S2, ref2, h))
         for S2, ref2, h in children:
@@ -377,52 +512,248 @@ def eval_joint(cell, res):
             return
         n = len(refs_[0].items)
         children = []
-        for b in range(0, n + 1):
-            for t in range(1, n + 2):
-                h = hist + [[b, t]]
-                before = {key: _fp(J[key]) for key in J}
-                res.transitions += 1
-                res.traces += 1
-                try:
-                    J2 = J.burnthin(b, t)
-                    err = None
-                except Exception as e:  # noqa
-                    err = e
-                if {key: _fp(J[key]) for key in J} != before:
-                    fail("source-altered", "JointSamples.burnthin changed its source (history %s)" % (h,))
-                    return
-                new = [r.burnthin(b, t) for r in refs_]
-                if err is not None:
-                    res.refused += 1
-                    if len(new[0].items) != 0:
-                        fail("raises", "burnthin(%d,%d) raised %r on %d samples" % (b, t, err, n), history=h)
-                    continue
-                res.evaluations += 1
-                if not isinstance(J2, cuqi.samples.JointSamples) or list(J2.keys()) != list(J.keys()):
-                    fail("members", "result is %s with keys %s" % (type(J2).__name__, list(getattr(J2, "keys", lambda: [])())), history=h)
-                    continue
-                ok = True
-                for key, r2, cf in zip(J.keys(), new, (cfx, cfy)):
-                    got = np.asarray(J2[key].samples)
-                    want = r2.array((cf.par_dim,) if r2.is_par else cf.fun_shape)
-                    if got.shape != want.shape or not np.array_equal(got, want):
-                        fail("samples", "member %r after history %s is not the slice [..., b::t]" % (key, h), impl=got, ref=want, history=h)
-                        ok = False
-                    elif bool(J2[key].is_par) != r2.is_par or bool(J2[key].is_vec) != r2.is_vec:
-                        fail("flags", "member %r lost its representation flags (history %s)" % (key, h), history=h)
-                        ok = False
-                    elif not _same_geometry(J2[key].geometry, J[key].geometry):
-                        fail("geometry", "member %r lost its geometry (history %s)" % (key, h), history=h)
-                        ok = False
-                if not ok:
-                    continue
-                res.outcomes.add("joint-burnthin->n=%d" % len(new[0].items))
-                if len(new[0].items) == 0:
-                    continue
-                children.append((J2, new, h))
+        for op in _bt_alphabet(n, first=not hist):
+            b, t = op[1], (1 if op[2] is None else op[2])
+            h = hist + [[x for x in op[1:] if not isinstance(x, bool)]]
+            members = {key: J[key] for key in J}
+            before = {key: _fp(J[key]) for key in J}
+            res.transitions += 1
+            res.traces += 1
+            try:
+                J2 = _call_burnthin(J, op)
+                err = None
+            except Exception as e:  # noqa
+                err = e
+            if {key: _fp(J[key]) for key in J} != before or any(J[key] is not members[key] for key in members):
+                fail("source-altered", "JointSamples.burnthin changed its source (history %s)" % (h,))
+                return
+            new = [r.burnthin(b, t) for r in refs_]
+            if err is not None:
+                res.refused += 1
+                if len(new[0].items) != 0:
+                    fail("raises", "burnthin(%d,%d) raised %r on %d samples" % (b, t, err, n), history=h)
+                continue
+            res.evaluations += 1
+            if not isinstance(J2, cuqi.samples.JointSamples) or list(J2.keys()) != list(J.keys()):
+                fail("members", "result is %s with keys %s" % (type(J2).__name__, list(getattr(J2, "keys", lambda: [])())), history=h)
+                continue
+            ok = True
+            for key, r2, cf in zip(J.keys(), new, (cfx, cfy)):
+                got = np.asarray(J2[key].samples)
+                want = r2.array((cf.par_dim,) if r2.is_par else cf.fun_shape)
+                if got.shape != want.shape or not np.array_equal(got, want):
+                    fail("samples", "member %r after history %s is not the slice [..., b::t]" % (key, h), impl=got, ref=want, history=h)
+                    ok = False
+                elif bool(J2[key].is_par) != r2.is_par or bool(J2[key].is_vec) != r2.is_vec:
+                    fail("flags", "member %r lost its representation flags (history %s)" % (key, h), history=h)
+                    ok = False
+                elif not _same_geometry(J2[key].geometry, J[key].geometry):
+                    fail("geometry", "member %r lost its geometry (history %s)" % (key, h), history=h)
+                    ok = False
+            if not ok:
+                continue
+            # the result is a new joint set of new members, independent of the source in both directions
+            if J2 is J or any(J2[key] is J[key] for key in J):
+                fail("result-is-source", "JointSamples.burnthin handed back %s (history %s): anything re-bound on the "
+                     "result later changes the source" % ("the source dictionary" if J2 is J else "source member(s) %s"
+                                                          % [key for key in J if J2[key] is J[key]], h), history=h)
+                continue
+            res.outcomes.add("joint-burnthin->n=%d" % len(new[0].items))
+            if len(new[0].items) == 0 or not op[4]:
+                continue
+            children.append((J2, new, h))
         for J2, new, h in children:
             rec(J2, new, depth - 1, h)
     rec(J, [rx, ry], cell["depth"], [])
+
+
+# ----------------------------------------------------------------------------------------
+# E2: independence of result and source + use -> re-assign -> use, on fresh objects per history
+# ----------------------------------------------------------------------------------------
+def _apply(S, op):
+    import copy as _copy
+    name = op[0]
+    if name == "burnthin":
+        return _call_burnthin(S, op)
+    if name == "copy":
+        return _copy.copy(S)
+    if name == "deepcopy":
+        return _copy.deepcopy(S)
+    return getattr(S, name)
+
+
+def _ref_apply(ref, op, cf):
+    name = op[0]
+    if name == "burnthin":
+        return ref.burnthin(op[1], 1 if op[2] is None else op[2])
+    if name in ("copy", "deepcopy"):
+        return Ref(ref.items, ref.is_par, ref.is_vec)        # same contents, new state
+    return getattr(ref, name)(cf)                            # NotImplementedError: geometry has no such form
+
+
+def _histories(cf, ref, depth, prefix=()):
+    """Every operation sequence of length 1..depth the reference can follow to a non-empty chain:
+    yields (history, reference before the last operation, reference after it)."""
+    n = len(ref.items)
+    alphabet = _bt_alphabet(n, first=not prefix) + [("funvals",), ("vector",), ("parameters",), ("copy",), ("deepcopy",)]
+    for op in alphabet:
+        try:
+            ref2 = _ref_apply(ref, op, cf)
+        except NotImplementedError:
+            continue
+        if len(ref2.items) == 0:
+            continue
+        h = prefix + (op,)
+        yield h, ref, ref2
+        if depth > 1 and (op[0] != "burnthin" or op[4]):
+            for item in _histories(cf, ref2, depth - 1, h):
+                yield item
+
+
+def eval_indep(cell, res):
+    """For every history (length <= depth) a FRESH start object is taken through the history; the last operation's
+    source A and result B are then probed: attribute-level independence in both directions, and afterwards
+    use -> re-assign B.samples -> use: statistics and conversions of B are those of the newly stored chain."""
+    import cuqi
+    cf = Conf(cell["geom"])
+    k, Ns = cell["cat"], cell["Ns"]
+    alt = cuqi.geometry.Discrete(["alt%d" % i for i in range(cf.par_dim)])
+    seen = set()
+
+    def fail(op, what, msg, **d):
+        sig = "C19|Samples|%s|%s" % (op, what)
+        if sig not in seen:
+            seen.add(sig)
+            res.fail(sig, msg, **d)
+
+    def item_shape(r):
+        return (cf.par_dim,) if r.is_par else ((cf.funvec_dim,) if r.is_vec else cf.fun_shape)
+    _, ref0 = _start(cf, cell["start"], Ns, k)
+    for hist, ref1, ref2 in _histories(cf, ref0, cell["depth"]):
+        h = [[x for x in op if not isinstance(x, bool)] for op in hist]
+        name = hist[-1][0]
+        A, _ = _start(cf, cell["start"], Ns, k)
+        res.traces += 1
+        try:
+            for op in hist[:-1]:
+                A = _apply(A, op)
+                res.transitions += 1
+            fa = _fp(A)
+            B = _apply(A, hist[-1])
+            res.transitions += 1
+        except Exception:  # noqa   refusals are judged by the hist cells (same histories); nothing to probe here
+            res.refused += 1
+            res.count("not-probed:raised")
+            continue
+        res.state("%s=>%s" % (ref1.key(), ref2.key()))
+        if B is A:
+            res.count("returns-self:" + name)     # identity is judged by the hist cells
+            continue
+        try:
+            coupled = _independence(res, A, B, alt, name)
+        except Exception as e:  # noqa
+            coupled = "raised %r" % (e,)
+        if coupled is not None or _fp(A) != fa:
+            fail(name, "result-coupled-to-source", "after history %s result and source of %s are not independent objects: %s "
+                 "shows on the other object" % (h, name, coupled), history=h)
+            continue
+        res.outcomes.add("independent:%s:%s" % (name, ref2.key()))
+        # use -> assign -> use on the result: what is computed afterwards is a function of the chain stored NOW
+        n2 = len(ref2.items)
+        W = _values(item_shape(ref2), n2, k, salt=7)
+        refW = Ref([W[..., j].copy() for j in range(n2)], ref2.is_par, ref2.is_vec)
+        try:
+            B.funvals
+            B.mean()
+            B.samples = W.copy()
+            res.transitions += 3
+            got_ns, got_mean = B.Ns, np.asarray(B.mean(), float)
+            try:
+                want_fun = refW.funvals(cf)
+            except NotImplementedError:
+                want_fun = None
+            got_fun = B.funvals if want_fun is not None else None
+        except Exception as e:  # noqa
+            fail("samples-reassigned", "raises", "history %s, then use / re-assign .samples / use raised %r" % (h, e), history=h)
+            continue
+        res.evaluations += 2
+        if got_ns != n2 or got_mean.shape != W.shape[:-1] or not close(got_mean, _ref_stats(W)["mean"], 1e-12):
+            fail("mean", "stale-after-samples-reassigned", "history %s: after re-assigning .samples the mean is not that of the "
+                 "stored chain" % (h,), history=h, impl=got_mean, ref=W.mean(axis=-1))
+        if got_fun is not None:
+            want = want_fun.array(cf.fun_shape)
+            g = np.asarray(got_fun.samples)
+            if g.shape != want.shape or not close(g, want, 1e-12):
+                fail("funvals", "stale-after-samples-reassigned", "history %s: after re-assigning .samples, .funvals is not the "
+                     "conversion of the stored chain" % (h,), history=h, impl=g, ref=want)
+            else:
+                res.outcomes.add("reassigned-funvals-ok:" + ref2.key())
+
+
+def eval_indep_joint(cell, res):
+    """JointSamples: every burnthin history of length <= depth on a fresh joint set; the last step's source and result
+    dictionaries and their members are probed for independence."""
+    import cuqi
+    Ns, k = cell["Ns"], cell["cat"]
+    cfx, cfy = Conf("default2"), Conf("imgF")
+    alt = {"x": cuqi.geometry.Discrete(["a0", "a1"]), "y": cuqi.geometry.Discrete(["b%d" % i for i in range(6)])}
+    seen = set()
+
+    def fail(what, msg, **d):
+        sig = "C19|JointSamples|burnthin|%s" % what
+        if sig not in seen:
+            seen.add(sig)
+            res.fail(sig, msg, **d)
+
+    def hists(n, depth, prefix=()):
+        for op in _bt_alphabet(n, first=not prefix):
+            n2 = len(range(n)[op[1]::(1 if op[2] is None else op[2])])
+            if n2 == 0:
+                continue
+            yield prefix + (op,)
+            if depth > 1 and op[4]:
+                for item in hists(n2, depth - 1, prefix + (op,)):
+                    yield item
+    for hist in hists(Ns, cell["depth"]):
+        h = [[x for x in op[1:] if not isinstance(x, bool)] for op in hist]
+        Sx, _ = _start(cfx, "par", Ns, k)
+        Sy, _ = _start(cfy, "fun", Ns, k + 1)
+        J = cuqi.samples.JointSamples({"x": Sx, "y": Sy})
+        res.traces += 1
+        try:
+            for op in hist[:-1]:
+                J = _call_burnthin(J, op)
+                res.transitions += 1
+            before = {key: _fp(J[key]) for key in J}
+            J2 = _call_burnthin(J, hist[-1])
+            res.transitions += 1
+            keys_ok = list(J2.keys()) == ["x", "y"] and list(J.keys()) == ["x", "y"]
+        except Exception:  # noqa   judged by the joint history cells
+            res.refused += 1
+            res.count("not-probed:raised")
+            continue
+        res.state("joint:n=%d" % J2["x"].Ns if keys_ok else "joint:?")
+        if not keys_ok or J2 is J or any(J2[key] is J[key] for key in J):
+            res.count("not-probed:identity-or-keys")          # judged by the joint history cells
+            continue
+        coupled = None
+        try:
+            for key in ("x", "y"):
+                coupled = coupled or _independence(res, J[key], J2[key], alt[key], "joint-member")
+            for X, Y in ((J2, J), (J, J2)):       # re-binding an entry of one dictionary does not show in the other
+                keep, other = X["x"], Y["x"]
+                X["x"] = X["y"]
+                if Y["x"] is not other or list(Y.keys()) != ["x", "y"]:
+                    coupled = coupled or "re-binding a dictionary entry"
+                X["x"] = keep
+                res.evaluations += 1
+        except Exception as e:  # noqa
+            coupled = "raised %r" % (e,)
+        if coupled is not None or {key: _fp(J[key]) for key in J} != before:
+            fail("result-coupled-to-source", "after burnthin history %s result and source are not independent: %s shows on "
+                 "the other object" % (h, coupled), history=h)
+            continue
+        res.outcomes.add("joint-independent:n=%d" % J2["x"].Ns)
 
 
 # ----------------------------------------------------------------------------------------
@@ -567,14 +898,23 @@ def eval_stats(cell, res):
             b, t = 1, 2
             rb = ref.burnthin(b, t)
             res.state("stats-burnthin")
-            Sb = S.burnthin(b, t)
-            if np.array_equal(np.asarray(Sb.samples), rb.array(item)):
+            try:
+                Sb = S.burnthin(b, t)
+            except Exception as e:  # noqa   b < Ns: no licence to refuse
+                fail("burnthin", "raises", "burnthin(%d,%d) raised %r on a chain of %d samples" % (b, t, e, Ns))
+                Sb = None
+            if Sb is None:
+                pass
+            elif np.array_equal(np.asarray(Sb.samples), rb.array(item)):
                 _check_stats(res, fail, Sb, rb.array(item), "repr=burnthinned")
             else:
                 res.count("burnthin-differs-statistics-not-judged")   # flagged by the history cells
         if _fp(S) != before:
             fail("statistics", "source-altered", "computing statistics changed the samples")
-    res.sample = {"mean": np.asarray(S.mean()), "ci95": [np.asarray(x) for x in S.compute_ci(95)]}
+    try:
+        res.sample = {"mean": np.asarray(S.mean()), "ci95": [np.asarray(x) for x in S.compute_ci(95)]}
+    except Exception as e:  # noqa   already reported by _check_stats
+        res.sample = {"statistics_raise": repr(e)}
 
 
 # ----------------------------------------------------------------------------------------
@@ -647,13 +987,38 @@ def eval_ess(cell, res):
     res.sample = {"ess": ess, "ess_reference": ref, "rhat": rh}
 
 
-FAMS = {"hist": eval_hist, "joint": eval_joint, "stats": eval_stats, "ess": eval_ess}
+FAMS = {"hist": eval_hist, "joint": eval_joint, "indep": eval_indep, "indep-joint": eval_indep_joint, "stats": eval_stats, "ess": eval_ess}
+
+
+def _library_frame(exc):
+    """Innermost traceback frame that lies inside the cuqi package (None if the exception is the check's own)."""
+    import os
+    import traceback
+    import cuqi
+    root = os.path.dirname(os.path.abspath(cuqi.__file__)) + os.sep
+    hit = None
+    for fr in traceback.extract_tb(exc.__traceback__):
+        if os.path.abspath(fr.filename).startswith(root):
+            hit = fr
+    return hit
 
 
 def eval_cell(cell):
     import cuqi  # noqa
     res = CellResult(cell)
-    FAMS[cell["fam"]](cell, res)
+    try:
+        FAMS[cell["fam"]](cell, res)
+    except Exception as e:  # noqa
+        # Safety net: every library call whose refusal the statement allows is guarded where it is made.  What arrives
+        # here from INSIDE the library is therefore a refusal without licence (construction, attribute access, ...):
+        # a verdict.  An exception of the check's own code stays a harness error.
+        fr = _library_frame(e)
+        if fr is None:
+            raise
+        res.transitions += 1
+        res.fail("C19|%s|%s|raises-unexpectedly" % ("JointSamples" if cell["fam"] == "joint" else "Samples", fr.name),
+                 "%s (cuqi %s:%s) raised %r in a %s cell where the statement gives no licence to refuse"
+                 % (fr.name, fr.filename.rsplit("/", 1)[-1], fr.lineno, e, cell["fam"]))
     if res.transitions == 0:
         res.nontrivial = False
     return res
